@@ -6,6 +6,7 @@ RULE = ("run <mode> T bits / T bitsskip / tv X bits on BIT STRING encodings: all
         "sizes around the CER bound (999..1002 content octets), wrong tags; bits.bit for every accepted shape: all unused counts x data of "
         "0-3 octets (boundary octets) and random longer data, every index 0..bit_len+16; non-zero unused bits included. "
         "non-trivial = accepted / bit index inside the string.")
+CROSS = {'C04': 2000, 'C07': 1000}   # cross streams: samples of neighbouring properties' request streams (outcomes, model <-> implementation)
 EXHAUSTIVE = {"quick": False, "thorough": False}
 EXHAUSTIVE_NOTE = {"quick": "all BIT STRING contents of <= 2 octets x 3 modes x take/skip", "thorough": "all contents of <= 3 octets (DER), <= 2 octets x 3 modes"}
 ASSUMPTIONS = ["BitString::new's documented assertion (unused <= 7, empty => unused == 0) is caller misuse and not requested"]
